@@ -120,11 +120,12 @@ def main():
             rc, log = B.coq_make()
             coq_log = log
             if rc != 0:
+                # a file that does not build matters to this property only if Properties_<pid>.v depends on it,
+                # which shows as a failure of the (unconditional) compilation of that file below; other
+                # failures are recorded as notes
                 errs = re.findall(r"File \"([^\"]+)\", line (\d+)[^\n]*\n(?:[^\n]*\n){0,6}?Error:([^\n]*(?:\n[^\n]+){0,3})", log)
                 for f, ln, msg in errs[:10]:
-                    broken.append("%s:%s: %s" % (f, ln, " ".join(msg.split())[:300]))
-                if not errs:
-                    broken.append("coq build failed: " + log[-500:])
+                    notes.append("%s:%s: %s" % (f, ln, " ".join(msg.split())[:300]))
             ok, plog = B.coq_compile_props(pid)
             if ok:
                 discharged = len(obligations)
@@ -271,6 +272,7 @@ def main():
             "theorems": [{"name": n, "axioms": axioms.get(n, None)} for n, _ in obligations],
             "axioms_used": all_ax,
             "broken_obligations": broken,
+            "other_build_notes": notes,
             "evaluations": len(lines),
             "distinct_nontrivial": len(nontrivial),
             "rule": getattr(gen, "RULE", ""),
